@@ -35,4 +35,16 @@ TEXT = {
         "note": NOTE,
         "technique": "runtime monitor: differential check of compiled diagrams against brute-force evaluation of the input, and pointer-equality across compilation routes",
     },
+    "C06": {
+        "level": "Exploration by runtime monitoring: each top-down compilation (both node stores) is compared with brute-force evaluation of the clause list, the false-constant/UNSAT correspondence and per-path single decision are checked structurally, and condition() on the result and on its negation is compared with the cofactor for every literal; all decision orders are enumerated for CNFs over <= 4 variables.",
+        "design_ref": "DESIGN.md section 4, C06",
+        "note": NOTE,
+        "technique": "runtime monitor: differential check against brute-force CNF semantics + structural path invariant + conditioning oracle, workload biased to component-cache hits and late UNSAT",
+    },
+    "C09": {
+        "level": "Exploration by runtime monitoring of decide/pop histories: an online checker compares every observable solver state with brute-force entailment over all models, an independent naive propagator, a recorded-state stack (pop restore) and a per-solver hash->residual map. Right level because watched-literal bugs depend on the history of falsifications across backtracking, which only long random walks reach.",
+        "design_ref": "DESIGN.md section 4, C09",
+        "note": NOTE,
+        "technique": "runtime monitor: online trace checker over decide/pop histories against brute-force entailment, reference propagator and recorded pre-decision states (read-only model hook)",
+    },
 }
